@@ -3,9 +3,10 @@ CONSTANTS
   WLS = {4,5,10,20}
   NMin = 2
   NMax = 3
-  NCol = 4
+  NCols = {4}
+  NMax3 = 0
   Wids = {1,7}
-  H = 100
+  H = 200
   U = 25
   AlgVariant = "ok"
   Export = FALSE
